@@ -54,13 +54,15 @@ let () =
     | [v] -> res_s hex_of_bytes (M.try_to_vec_with_schema (t ()) (val_of (parse_sexp v)))
     | _ -> failwith "encws: args");
   reg_typed "decws" (fun t args -> match args with
-    | [strict; h] -> res_s string_of_val (M.try_from_slice_with_schema (strict = "1") (t ()) (bytes_of_hex h))
+    | [strict; h] -> res_s string_of_val (M.try_from_slice_with_schema (bool_of strict) (t ()) (bytes_of_hex h))
     | _ -> failwith "decws: args");
   reg_typed "sdec" (fun t args -> match args with
     | [h] ->
         (match M.schema_of (t ()) with
          | M.Ok c ->
-             (match M.sdec c (M.decl_of (t ())) (nat_of_int 64) (bytes_of_hex h) with
+             (* fuel: one unit per nesting level of the container-driven decoder; the depth of a value is bounded by
+                the number of definitions plus the length of the type's own term, far below this *)
+             (match M.sdec c (M.decl_of (t ())) (nat_of_int (256 + L.length c.M.defs)) (bytes_of_hex h) with
               | Some (sv, rest) -> "ok " ^ sval_s sv ^ " " ^ hex_of_bytes rest
               | None -> "none")
          | r -> res_s (fun _ -> "") r)
@@ -79,7 +81,7 @@ let () =
     | _ -> failwith "cont-enc: args");
   reg_untyped "cont-dec" (function
     | [strict; h] ->
-        (match M.try_from_slice (strict = "1") M.ty_container (bytes_of_hex h) with
+        (match M.try_from_slice (bool_of strict) M.ty_container (bytes_of_hex h) with
          | M.Ok v -> (match M.val_to_container v with
                       | Some c -> "ok " ^ dump_container c
                       | None -> "driver-error val_to_container")
